@@ -249,6 +249,44 @@ func c13FreeProperty(t *rapid.T) {
 			vk.Violation(t, c, "C13/free/field-after-group-lost", "tag %d: %q err %v want %q in %s", k, got, err, v, vk.Show(raw))
 		}
 	}
+	// read - amend - write back: the group read from the parsed message gets one more entry and is
+	// set into a message again (an application adding an allocation to an order it received); what
+	// is then written is the old entries plus the new one, nothing else
+	if entries > 0 && rapid.IntRange(0, 2).Draw(t, "read-amend-write") == 0 {
+		amended := quickfix.NewRepeatingGroup(quickfix.Tag(g.tag), tm.qf())
+		if err := p.Body.GetGroup(amended); err == nil {
+			extra := &mEntry{vals: map[int][]byte{tm.members[0].tag: []byte("added")}, groups: map[int]*mGroup{}}
+			if tm.members[0].nested == nil {
+				amended.Add().SetBytes(quickfix.Tag(tm.members[0].tag), extra.vals[tm.members[0].tag])
+				want := &mGroup{tag: g.tag, tmpl: tm, entries: append(append([]*mEntry{}, g.entries...), extra)}
+				out := quickfix.NewMessage()
+				out.Header.SetString(8, "FIX.4.4")
+				out.Header.SetString(35, "D")
+				out.Body.SetGroup(amended)
+				for k, v := range after {
+					out.Body.SetString(quickfix.Tag(k), v)
+				}
+				raw2 := []byte(out.String())
+				p2 := quickfix.NewMessage()
+				if err := quickfix.ParseMessage(p2, bytes.NewBuffer(raw2)); err != nil {
+					vk.Violation(t, c, "C13/free/amended/parse-error", "%v for %s (amended from %s)", err, vk.Show(raw2), vk.Show(raw))
+				}
+				back := quickfix.NewRepeatingGroup(quickfix.Tag(g.tag), tm.qf())
+				if err := p2.Body.GetGroup(back); err != nil {
+					vk.Violation(t, c, "C13/free/amended/getgroup-error", "%v for %s (amended from %s)", err, vk.Show(raw2), vk.Show(raw))
+				}
+				if err := compareGroup(back, want); err != nil {
+					vk.Violation(t, c, "C13/free/amended/group-differs", "%v in %s (amended from %s)", err, vk.Show(raw2), vk.Show(raw))
+				}
+				if fs, err := fixwire.Scan(raw2, nil); err == nil {
+					if got, wantN := len(fs), 4+len(want.flatten())+len(after); got != wantN {
+						vk.Violation(t, c, "C13/free/amended/field-count", "%d fields on the wire, the amended group and the %d other fields make %d: %s (amended from %s)", got, len(after), wantN, vk.Show(raw2), vk.Show(raw))
+					}
+				}
+				c.Class("free:read-amend-write")
+			}
+		}
+	}
 	c13FreeWithDictionary(t, c, tm, g, others, after, raw)
 	for k, v := range others {
 		got, err := p.Body.GetString(quickfix.Tag(k))
@@ -748,4 +786,46 @@ func TestReplay_C13_Pair(t *testing.T) {
 		}
 	}
 	t.Fatalf("pair not found: %v", l)
+}
+
+// TestReplay_C13_AmendedFixed: regression for the defect repaired by /repo ea148f6 - a group that
+// was read (from a built or a parsed message), given one more entry and set into a message again is
+// written with every member once.
+func TestReplay_C13_AmendedFixed(t *testing.T) {
+	c := c13()
+	vk.Guard(func() {
+		tmpl := func() quickfix.GroupTemplate {
+			return quickfix.GroupTemplate{quickfix.GroupElement(79), quickfix.GroupElement(80)}
+		}
+		m := quickfix.NewMessage()
+		m.Header.SetString(8, "FIX.4.4")
+		m.Header.SetString(35, "J")
+		g := quickfix.NewRepeatingGroup(78, tmpl())
+		g.Add().SetString(79, "ACC1").SetString(80, "60")
+		m.Body.SetGroup(g)
+		m.Body.SetString(100, "XNAS")
+		for _, viaWire := range []bool{false, true} {
+			src := m
+			if viaWire {
+				src = quickfix.NewMessage()
+				if err := quickfix.ParseMessage(src, bytes.NewBufferString(m.String())); err != nil {
+					t.Fatalf("harness: %v", err)
+				}
+			}
+			rg := quickfix.NewRepeatingGroup(78, tmpl())
+			if err := src.Body.GetGroup(rg); err != nil {
+				t.Fatalf("harness: %v", err)
+			}
+			rg.Add().SetString(79, "ACC2").SetString(80, "40")
+			out := quickfix.NewMessage()
+			out.Header.SetString(8, "FIX.4.4")
+			out.Header.SetString(35, "J")
+			out.Body.SetGroup(rg)
+			raw := []byte(out.String())
+			want := "78=2\x0179=ACC1\x0180=60\x0179=ACC2\x0180=40\x01"
+			if fs, err := fixwire.Scan(raw, nil); err != nil || len(fs) != 9 || !bytes.Contains(raw, []byte(want)) {
+				vk.Violation(t, c, "C13/free/amended/field-count", "read (via the wire: %v), one entry added, written: %s", viaWire, vk.Show(raw))
+			}
+		}
+	})
 }
